@@ -261,8 +261,11 @@ def r_subdir_nofollow(s, m, ab):
 def r_emptydir(s, m, ab):
     r = Rule('emptydir', s, m)
     d = 'share/' + nm(s, 'pkg') + '/' + nm(s, 'empty')
-    r.snippet = 'install_emptydir(%s%s)' % (q(d), _modekw(m))
-    r.entries.append(Entry(('rel', d), 'dir', r, mode=MODE_BITS[m]))
+    # a directory is where the sticky bit means something (and the one rule for which meson keeps it)
+    dsrc = {'unset': None, 'sym': "'rwxrwxrwt'", 'suid': "['rwsr-x--T', 0, 0]"}[m]
+    dbits = {'unset': None, 'sym': 0o1777, 'suid': 0o5750}[m]
+    r.snippet = 'install_emptydir(%s%s)' % (q(d), '' if dsrc is None else ', install_mode: ' + dsrc)
+    r.entries.append(Entry(('rel', d), 'dir', r, mode=dbits))
     return r
 
 
